@@ -18,6 +18,7 @@ import json,re,sys
 m=json.load(open('$d/meta.json')); c=re.findall(r'C\d\d', m.get('caught_by',''))
 print(c[0] if c else '$id'[:3])")
     patch=$d/patch.diff; [ -f $d/patch-rebased.diff ] && patch=$d/patch-rebased.diff
+    if grep -q '"superseded_by"' $d/meta.json; then echo "$id $prop SUPERSEDED (see meta.json: the seeded slip is harmless after a later fix)"; continue; fi
     ( cd $wt && git reset -q --hard && git clean -qfd -e _seed )
     if ! git -C $wt apply /verif/$patch 2>/dev/null; then
       # the patch predates later fixes in /repo: try a 3-way merge using the blobs named in the patch
